@@ -1,5 +1,6 @@
 #![allow(dead_code)]
 mod browse;
+mod cache;
 mod compare;
 mod conflict;
 mod decode;
@@ -227,6 +228,35 @@ fn main() {
             }
             sim::write_trace(&out, &lines);
             println!("{}", json!({"summary": {"scenarios": n, "lines": lines.len()}}));
+        }
+        "cachecases" => {
+            let path = a.get("cases").cloned().unwrap_or_default();
+            let text = std::fs::read_to_string(&path).expect("cases file");
+            let all: Vec<&str> = text.lines().filter(|l| !l.trim().is_empty()).collect();
+            let from: usize = a.get("from").and_then(|s| s.parse().ok()).unwrap_or(1);
+            let to: usize = a.get("to").and_then(|s| s.parse().ok()).unwrap_or(all.len()).min(all.len());
+            let stride: usize = a.get("stride").and_then(|s| s.parse().ok()).unwrap_or(1).max(1);
+            let mut lines = Vec::new();
+            let mut n = 0;
+            let mut id = from;
+            while id <= to {
+                let case: serde_json::Value = serde_json::from_str(all[id - 1]).expect("case json");
+                lines.extend(cache::scenario_case(id as u64, &case));
+                n += 1;
+                id += stride;
+            }
+            sim::write_trace(&out, &lines);
+            println!("{}", json!({"summary": {"scenarios": n, "lines": lines.len()}}));
+        }
+        "cacherand" => {
+            let from: u64 = a.get("from").and_then(|s| s.parse().ok()).unwrap_or(0);
+            let to: u64 = a.get("to").and_then(|s| s.parse().ok()).unwrap_or(from);
+            let mut lines = Vec::new();
+            for id in from..=to {
+                lines.extend(cache::scenario_rand(id, seed, thorough));
+            }
+            sim::write_trace(&out, &lines);
+            println!("{}", json!({"summary": {"scenarios": to + 1 - from, "lines": lines.len()}}));
         }
         "txt-bytes" => {
             let h = a.get("hex").cloned().unwrap_or_default();
